@@ -394,6 +394,12 @@ _NEUTRAL_BASES = {
     "neutral-r16": ["C05", "C06", "C08", "C15", "C16", "C18", "C19", "C20"],
     "neutral-r15": ["C01", "C02", "C03", "C04", "C05", "C06", "C09", "C10", "C11", "C12", "C16"],
     "neutral-r17": ["C13", "C14", "C09"],
+    "neutral-r18": ["C04", "C08"],
+    "neutral-r19": ["C14", "C09"],
+    "neutral-r20": ["C15", "C16", "C17"],
+    "neutral-r21": ["C15", "C16", "C18", "C19"],
+    "neutral-r22": ["C05", "C06", "C13", "C15"],
+    "neutral-r23": ["C07", "C12", "C14", "C17", "C20"],
 }
 for _b, _ps in _NEUTRAL_BASES.items():
     for _p, _m in refactor(_b, _ps).items():
@@ -489,6 +495,34 @@ for _p in ("C02", "C05", "C10"):
 MUTANTS.setdefault("C10", []).append(mut("pool-helper-multiplies-unsplit", "delegated pool rescaling multiplies on UNSPLIT",
     [(M, "        match &tx.operation {\n            Operation::Split { ratio } => {\n                if let Some(pool) = self.pools.get_mut(&tx.ticker) {\n                    pool.quantity *= *ratio;\n                }\n            }\n            Operation::Unsplit { ratio } => {\n                if let Some(pool) = self.pools.get_mut(&tx.ticker)\n                    && *ratio != Decimal::ZERO\n                {\n                    pool.quantity /= *ratio;\n                }\n            }\n            Operation::Buy { .. }\n            | Operation::Sell { .. }\n            | Operation::Dividend { .. }\n            | Operation::Accumulation { .. }\n            | Operation::CapReturn { .. } => {}\n        }\n        Ok(())\n    }\n", "        if let Some(pool) = self.pools.get_mut(&tx.ticker) {\n            scale_share_count(&mut pool.quantity, tx);\n        }\n        Ok(())\n    }\n"), (M, "\nimpl Default for Matcher {", "\n/// Rescale a share count by the line's SPLIT / UNSPLIT ratio.\nfn scale_share_count(quantity: &mut Decimal, tx: &GbpTransaction) {\n    match &tx.operation {\n        Operation::Split { ratio } => {\n            *quantity *= *ratio;\n        }\n        Operation::Unsplit { ratio } => {\n            if *ratio != Decimal::ZERO {\n                *quantity *= *ratio;\n            }\n        }\n        Operation::Buy { .. }\n        | Operation::Sell { .. }\n        | Operation::Dividend { .. }\n        | Operation::Accumulation { .. }\n        | Operation::CapReturn { .. } => {}\n    }\n}\n\nimpl Default for Matcher {")], ["R2:pool handler:Unsplit"]))
 
+MUTANTS.setdefault("C18", []).append(mut("sell-row-written-as-buy", "SELL rows are written with the BUY keyword",
+    [(SCHWAB, "                    output_lines.push(output::format_trade(\n                        \"SELL\",", "                    output_lines.push(output::format_trade(\n                        \"BUY\",")], ["R3:"]))
+
+CFG_RS = "crates/cgt-core/src/config.rs"
+_CROSS7 = {
+    "C15": [on("neutral-r22", mut("r22+guard-wrong-variant", "overwrite guard tests the requested path, not the derived one",
+                                  [(MAIN, "            PdfDestination::Derived(path) if path.exists() => bail!(", "            PdfDestination::Requested(path) if path.exists() => bail!(")], ["R4:main:pdf-overwrite-guard"])),
+            on("neutral-r21", mut("r21+count-twice", "a skipped row is counted twice on one path",
+                                  [(SCHWAB, "        self.transactions.push(CgtTransaction::Comment(comment));\n        self.skipped_count += 1;", "        self.transactions.push(CgtTransaction::Comment(comment));\n        self.skipped_count += 1;\n        self.skipped_count += 1;")], ["R2:"]))],
+    "C14": [on("neutral-r23", mut("r23+sniffer-swapped", "classifier returns Dsl for '['-prefixed input",
+                                  [(SERVER, "            Self::Json\n        } else {\n            Self::Dsl", "            Self::Dsl\n        } else {\n            Self::Json")], ["R3:"]))],
+    "C07": [on("neutral-r23", mut("r23+tuple-le", "6 April looked up in the previous tax year (tuple comparison)",
+                                  [(SERVER, "    if (date.month(), date.day()) < (4, 6) {", "    if (date.month(), date.day()) <= (4, 6) {")], ["R1:"]))],
+    "C20": [on("neutral-r23", mut("r23+tuple-le-c20", "6 April looked up in the previous tax year (tuple comparison)",
+                                  [(SERVER, "    if (date.month(), date.day()) < (4, 6) {", "    if (date.month(), date.day()) <= (4, 6) {")], ["R5:"])),
+            on("neutral-r23", mut("r23+find-date-only", "lookup pipeline compares the date only",
+                                  [(SERVER, "            .find(|d| d.date == date && d.ticker.eq_ignore_ascii_case(ticker))", "            .find(|d| d.date == date)")], ["R5:"]))],
+    "C18": [on("neutral-r21", mut("r21+sell-pushed-as-buy", "Sell rows are collected with side Buy",
+                                  [(SCHWAB, "            SchwabTransaction::Sell(trade) => self.push_trade(TradeSide::Sell, trade),", "            SchwabTransaction::Sell(trade) => self.push_trade(TradeSide::Buy, trade),")], ["R2:Sell:row-kind"])),
+            on("neutral-r21", mut("r21+keyword-swapped", "side Sell is written BUY",
+                                  [(SCHWAB, "            TradeSide::Sell => \"SELL\",", "            TradeSide::Sell => \"BUY\",")], ["R3:"])),
+            on("neutral-r21", mut("r21+withholding-peeked", "dividend tax read without consuming the withholding",
+                                  [(SCHWAB, "            .remove(&(date, symbol.to_string()))", "            .get(&(date, symbol.to_string()))\n            .copied()")], ["R2:dividend"]))],
+    "C04": [on("neutral-r18", mut("r18+override-first-wins", "override merged with or_insert",
+                                  [(CFG_RS, "        self.exemptions.extend(overrides.exemptions);", "        for (year, amount) in overrides.exemptions {\n            self.exemptions.entry(year).or_insert(amount);\n        }")], ["R7:"]))],
+    "C05": [on("neutral-r22", mut("r22+create-before-compute", "output file created before the calculation",
+                                  [(MAIN, "    fn run(&self) -> Result<()> {\n        let report = self.compute()?;", "    fn run(&self) -> Result<()> {\n        if let Some(path) = self.output {\n            fs::File::create(path)?;\n        }\n        let report = self.compute()?;")], ["R2:"]))],
+}
 _CROSS6 = {
     "C14": [on("neutral-r14", mut("r14+sell-price-positive", "carrier-struct validation also demands a positive SELL price",
                                   [(MODELS, "            Operation::Sell { amount, .. } => Some(PositiveCheck::amount(*amount, \"SELL\")),",
@@ -521,5 +555,5 @@ _CROSS5 = {
                                   [(PARSER, "[ticker(t), total_value(tv), tax(tx)..] => {\n                (t, Operation::Dividend {\n                    total_value: tv,\n                    tax_paid: or_zero_gbp(tx),",
                                     "[ticker(t), total_value(tv), tax(tx)] => {\n                (t, Operation::Dividend {\n                    total_value: tv,\n                    tax_paid: or_zero_gbp(std::iter::once(tx)),")], ["R1:cmd_dividend"]))],
 }
-for _p, _ms in list(_CROSS.items()) + list(_CROSS2.items()) + list(_CROSS3.items()) + list(_CROSS4.items()) + list(_CROSS5.items()) + list(_CROSS6.items()):
+for _p, _ms in list(_CROSS.items()) + list(_CROSS2.items()) + list(_CROSS3.items()) + list(_CROSS4.items()) + list(_CROSS5.items()) + list(_CROSS6.items()) + list(_CROSS7.items()):
     MUTANTS.setdefault(_p, []).extend(_ms)
